@@ -1,10 +1,11 @@
-import Proofs.Sampling
+import Proofs.SamplingLaws
+import Proofs.SpaceCheckers
 
 /-!
 # C10 — Sampling honours the declared support and prior of every hyperparameter
 
-Property theorems only.  Model: `Model/Sampling.lean` (+ `Model/Space.lean`), the code after the
-fixes of branch `fix-g4`; lemmas: `Proofs/Sampling.lean`.
+Property theorems only.  Model: `Model/Sampling.lean` (+ `Model/Space.lean`), the code as it is on
+`/repo` main (after the fixes 5b1cf8d, 1879100); lemmas: `Proofs/Sampling.lean`, `Proofs/SamplingLaws.lean`.
 
 A sampler is a function of the *draw* the random generator hands to it (`Draw.u q s`: a uniform
 number `q` and the scale `s` used by `_uniform_inclusive`; `Draw.r k`: an integer of
@@ -181,6 +182,120 @@ theorem C10_log_uniform_affine (L E : Rat → Rat) (hS : StrictMonoOn L) (lo hi 
   refine ⟨E (L lo + u * s), ?_, (hR _ h1 h2).1, hE.1, hE.2⟩
   simp [sampleDim, rvsTransformed, h, clip_id lo hi _ hE.1 hE.2]
 
+/-- **C10 (log-uniform reals, normalized space).**  With `transform="normalize"` (GP surrogate)
+the draw `t = u·s ∈ [0, 1]` of the normalized space is de-normalized to the exponent
+`L low + t·(L high - L low)`: `L (sample u)` is affine in `u` on the normalized scale as well, and the
+sample is inside the bounds. -/
+theorem C10_log_uniform_normalized_affine (L E : Rat → Rat) (hS : StrictMonoOn L) (lo hi : Rat)
+    (hpos : 0 < lo) (hlt : lo < hi) (hR : RightInvOn L E (L lo) (L hi)) (prior : Option (List Rat))
+    (u s : Rat) (h0 : 0 ≤ u * s) (h1 : u * s ≤ 1) :
+    ∃ x, sampleDim L E (.real lo hi .logUniform .normalize) prior (.u u s) = .ok (.num x) ∧
+      L x = L lo + u * s * (L hi - L lo) ∧ lo ≤ x ∧ x ≤ hi := by
+  have hL : L lo < L hi := hS lo hi hpos hlt
+  have a1 : L lo ≤ L lo + u * s * (L hi - L lo) := by nlinarith
+  have a2 : L lo + u * s * (L hi - L lo) ≤ L hi := by nlinarith
+  have hE := E_in_range L E hS lo hi hpos (le_of_lt hlt) hR _ a1 a2
+  refine ⟨E (L lo + u * s * (L hi - L lo)), ?_, (hR _ a1 a2).1, hE.1, hE.2⟩
+  rw [sample_real_log_normalize L E lo hi prior u s h0 h1, clip_id lo hi _ hE.1 hE.2]
+
+/-- **C10 (integer log-uniform, flat path: the law).**  `Integer(prior="log-uniform")` samples
+`round(clip(E a))` where `a` is the exponent: `a = L low + u·s` under the identity transform,
+`a = L low + u·s·(L high - L low)` under `normalize`.  For every strictly monotone `L` with right
+inverse `E` and every `k` of `low..high`, with `(c₁, c₂) = flatCell low high k`
+`= [k - 1/2, k + 1/2] ∩ [low, high]`: every exponent strictly between `L c₁` and `L c₂` gives `k`,
+and `k` is only given by exponents of `[L c₁, L c₂]`.  Since `a` is affine in `u`, the pre-image of
+`k` is (up to its two end points, a null set decided by half-to-even rounding) the `u`-interval
+mapped onto `(L c₁, L c₂)`, of measure `(L c₂ - L c₁) / (L high - L low)`: the law the harness
+tests the flat path and the GP-normalized optimizer against. -/
+theorem C10_int_log_flat_law (L E : Rat → Rat) (hS : StrictMonoOn L) (lo hi : Int) (hpos : 0 < lo)
+    (hlt : lo < hi) (hR : RightInvOn L E (L (lo : Rat)) (L (hi : Rat))) (prior : Option (List Rat))
+    (k : Int) (hk : lo ≤ k ∧ k ≤ hi) (u s : Rat) :
+    -- identity transform
+    (let a := L (lo : Rat) + u * s
+     L (lo : Rat) ≤ a → a ≤ L (hi : Rat) →
+      (L (flatCell lo hi k).1 < a → a < L (flatCell lo hi k).2 →
+        sampleDim L E (.int lo hi .logUniform .identity) prior (.u u s) = .ok (.int k)) ∧
+      (sampleDim L E (.int lo hi .logUniform .identity) prior (.u u s) = .ok (.int k) →
+        L (flatCell lo hi k).1 ≤ a ∧ a ≤ L (flatCell lo hi k).2)) ∧
+    -- normalize transform
+    (let a := L (lo : Rat) + u * s * (L (hi : Rat) - L (lo : Rat))
+     0 ≤ u * s → u * s ≤ 1 →
+      (L (flatCell lo hi k).1 < a → a < L (flatCell lo hi k).2 →
+        sampleDim L E (.int lo hi .logUniform .normalize) prior (.u u s) = .ok (.int k)) ∧
+      (sampleDim L E (.int lo hi .logUniform .normalize) prior (.u u s) = .ok (.int k) →
+        L (flatCell lo hi k).1 ≤ a ∧ a ≤ L (flatCell lo hi k).2)) := by
+  constructor
+  · intro a h1 h2
+    obtain ⟨c1, c2⟩ := int_log_cell L E hS lo hi hpos hlt hR a h1 h2 k hk
+    rw [sample_int_log_identity]
+    constructor
+    · intro x1 x2; rw [c1 x1 x2]
+    · intro h; exact c2 (by simpa using h)
+  · intro a h0 h1
+    have hposq : (0 : Rat) < (lo : Rat) := by exact_mod_cast hpos
+    have hltq : (lo : Rat) < (hi : Rat) := by exact_mod_cast hlt
+    have hL : L (lo : Rat) < L (hi : Rat) := hS _ _ hposq hltq
+    have a1 : L (lo : Rat) ≤ a := by show L (lo : Rat) ≤ L (lo : Rat) + u * s * (L (hi : Rat) - L (lo : Rat)); nlinarith
+    have a2 : a ≤ L (hi : Rat) := by show L (lo : Rat) + u * s * (L (hi : Rat) - L (lo : Rat)) ≤ L (hi : Rat); nlinarith
+    obtain ⟨c1, c2⟩ := int_log_cell L E hS lo hi hpos hlt hR a a1 a2 k hk
+    rw [sample_int_log_normalize L E lo hi prior u s h0 h1]
+    constructor
+    · intro x1 x2; rw [c1 x1 x2]
+    · intro h; exact c2 (by simpa using h)
+
+/-- **C10 (integer log-uniform, ConfigSpace's law).**  The model of ConfigSpace's sampler
+(`csIntLogSample`: `quantize_log` of `exp(ln low + u·(ln high - ln low))` into `high - low + 1` equal
+bins of `[low, high]`) gives `low + j` exactly for the exponents `a = L low + u·(L high - L low)` with
+`L c₁ ≤ a < L c₂`, `(c₁, c₂) = csCell low high j = [low + j·w, low + (j+1)·w)`,
+`w = (high - low)/(high - low + 1)` (the last bin is closed): a `u`-interval of measure
+`(L c₂ - L c₁)/(L high - L low)`, the law the harness tests the ConfigSpace path and `RandomSearch`
+against.  (ConfigSpace itself is external: this is a theorem about its model, which is compared with
+`hp.sample_value` under a scripted stream on every run.) -/
+theorem C10_int_log_configspace_law (L E : Rat → Rat) (hS : StrictMonoOn L) (lo hi : Int) (hpos : 0 < lo)
+    (hlt : lo < hi) (hR : RightInvOn L E (L (lo : Rat)) (L (hi : Rat))) (u : Rat) (hu0 : 0 ≤ u) (hu1 : u ≤ 1)
+    (j : Int) (hj0 : 0 ≤ j) (hj1 : j ≤ hi - lo) :
+    let a := L (lo : Rat) + u * (L (hi : Rat) - L (lo : Rat))
+    csIntLogSample L E lo hi u = lo + j ↔
+      L (csCell lo hi j).1 ≤ a ∧ (a < L (csCell lo hi j).2 ∨ j = hi - lo) := by
+  intro a
+  have hposq : (0 : Rat) < (lo : Rat) := by exact_mod_cast hpos
+  have hltq : (lo : Rat) < (hi : Rat) := by exact_mod_cast hlt
+  have hL : L (lo : Rat) < L (hi : Rat) := hS _ _ hposq hltq
+  have a1 : L (lo : Rat) ≤ a := by show L (lo : Rat) ≤ L (lo : Rat) + u * (L (hi : Rat) - L (lo : Rat)); nlinarith
+  have a2 : a ≤ L (hi : Rat) := by show L (lo : Rat) + u * (L (hi : Rat) - L (lo : Rat)) ≤ L (hi : Rat); nlinarith
+  have hE := E_in_range L E hS lo hi hposq (le_of_lt hltq) hR a a1 a2
+  obtain ⟨hLE, hEpos⟩ := hR a a1 a2
+  have hq := csQuantize_cell lo hi hlt (E a) hE.1 hE.2 j hj0 hj1
+  show csQuantize lo hi (E a) = lo + j ↔ _
+  rw [hq]
+  have hb : (0 : Rat) < (((hi - lo + 1 : Int)) : Rat) := by
+    have : (0 : Int) < hi - lo + 1 := by omega
+    exact_mod_cast this
+  have hw : (0 : Rat) ≤ ((hi : Rat) - (lo : Rat)) / (((hi - lo + 1 : Int)) : Rat) :=
+    div_nonneg (by linarith) (le_of_lt hb)
+  have hj0q : (0 : Rat) ≤ (j : Rat) := by exact_mod_cast hj0
+  have hc1 : 0 < (csCell lo hi j).1 := by
+    unfold csCell; simp only
+    have := mul_nonneg hj0q hw
+    linarith
+  have hc2 : 0 < (csCell lo hi j).2 := by
+    unfold csCell; simp only
+    have : (0 : Rat) ≤ ((j : Rat) + 1) * (((hi : Rat) - (lo : Rat)) / (((hi - lo + 1 : Int)) : Rat)) :=
+      mul_nonneg (by linarith) hw
+    linarith
+  constructor
+  · intro ⟨h1, h2⟩
+    refine ⟨by rw [← hLE]; exact mono_of_strict L hS _ _ hc1 h1, ?_⟩
+    rcases h2 with h2 | h2
+    · left; rw [← hLE]; exact hS _ _ hEpos h2
+    · right; exact h2
+  · intro ⟨h1, h2⟩
+    rw [← hLE] at h1
+    refine ⟨le_of_L_le L hS _ _ hEpos h1, ?_⟩
+    rcases h2 with h2 | h2
+    · left; rw [← hLE] at h2; exact lt_of_L_lt L hS _ _ hc2 h2
+    · right; exact h2
+
 /-- **C10 (pre-images of the finite supports and of the bounds are non-empty).**
 Every integer of a uniform range is produced by the draw equal to it; under the exact hypotheses
 on `L`, `E` every integer of a log-uniform range `low..high` is produced by some `u ∈ [0, 1]`;
@@ -326,6 +441,45 @@ theorem C10_configspace_point_support (conf : List (String × Val)) :
         exact ⟨confCell_member conf d (hwf d (by simp)) (hconf d (by simp)) v h1,
           C10_configspace_point_support conf ds (fun d' hd' => hwf d' (by simp [hd']))
             (fun d' hd' => hconf d' (by simp [hd'])) rest h2⟩
+
+/-! ### verified checker: sampled points against the declarations, name by name -/
+
+/-- **C10 (checker = specification).**  `checkPoint` accepts exactly when the point has one value
+per hyperparameter and value `j` is allowed (value and Python kind) by declaration `j`, the
+hyperparameters being listed in the order of `problem.hyperparameter_names`. -/
+theorem C10_checker_point (loose : Bool) (hps : List CsHp) (row : List Val) :
+    checkPoint loose hps row = true ↔
+      hps.length = row.length ∧
+        ∀ (j : Nat) (h : CsHp) (v : Val), hps[j]? = some h → row[j]? = some v → legalValue loose h v = true := by
+  simp only [checkPoint, all2_iff]
+
+/-- **C10 (declared-legal ⇒ member of the converted space).**  A value the declaration allows
+(strict mode) is a member of the dimension the declaration is converted to, so a point accepted by
+`checkPoint` is a point of the converted space. -/
+theorem C10_legal_member (h : CsHp) (sur : String) (d : SkoptDim) (hd : toSkoptDim h sur = .ok d)
+    (v : Val) (hl : legalValue false h v = true) : memDim d.dim v = true := by
+  cases h with
+  | uniformInt n lo hi log =>
+    simp [toSkoptDim] at hd; subst hd
+    cases v <;> simp [legalValue] at hl
+    simp [memDim, hl]
+  | uniformFloat n lo hi log =>
+    simp [toSkoptDim] at hd; subst hd
+    cases v <;> simp [legalValue] at hl
+    simp [memDim, hl]
+  | categorical n ch w =>
+    simp [toSkoptDim] at hd; subst hd
+    simp [legalValue] at hl
+    simp [memDim, hl]
+  | ordinal n seq =>
+    simp [toSkoptDim] at hd; subst hd
+    simp [legalValue] at hl
+    simp [memDim, hl]
+  | constant n c =>
+    simp [toSkoptDim] at hd; subst hd
+    simp [legalValue] at hl
+    simp [memDim, hl]
+  | other n => simp [toSkoptDim] at hd
 
 /-! ### non-vacuity and regression witnesses -/
 
